@@ -129,8 +129,12 @@ def prepare(prog):
             if h not in poss and all(a in poss for a in pos):
                 poss.add(h)
                 changed = True
+    PREP_ALL[0] = grules
     grules = [r for r in grules if all(a in poss for a in r[1])]
     return grules, groups, poss
+
+
+PREP_ALL = [None]
 
 
 def ground_negcycle(grules):
@@ -190,7 +194,8 @@ def reference(prog, max_worlds=1 << 12, extra_queries=(), want_joint=False, full
             st.extend(pos)
             st.extend(neg)
     rrules = [r for r in grules if r[0] in rel]
-    R.ground_negcycle = ground_negcycle(grules if full_negcycle else rrules)
+    # 'full ground dependency graph of the program': every ground rule instance, also those whose body cannot hold
+    R.ground_negcycle = ground_negcycle(PREP_ALL[0] if full_negcycle else rrules)
     rgroups = sorted({r[3][0] for r in rrules if r[3] is not None}, key=repr)
     nw = 1
     for g in rgroups:
